@@ -50,3 +50,23 @@ Example c10_example_run :
                  [[(([97], 0), mkC [7; 7] [Some 3; None] [[(3, 2)]]); (([98], 0), mkC [2; 1] [Some 2; Some 4] [[(1, 1)]])]])
          (SRaw [e1; e2; e3; e2]).
 Proof. vm_compute. reflexivity. Qed.
+
+(* ---------------------------------------------------------------- the worker loop as found (before the fix) *)
+From MV Require Import C10.Roots C10.Spin.
+
+(* REFUTATION of "its thread terminates once its last handle is dropped" for worker.rs as found
+   (recv_timeout's Err(Disconnected) handled like a timeout): under no schedule does the thread return ... *)
+Theorem c10_worker_never_exits_before_fix : forall h sh ls s s',
+  wrun false h sh s ls = Some s' -> w_exited s = false -> w_exited s' = false.
+Proof. exact worker_v0_never_exits. Qed.
+Print Assumptions c10_worker_never_exits_before_fix.
+
+(* ... and with no handle left and the channel drained it busy-loops: n more unblocked iterations for
+   every n, each a flush call on the inner sink. *)
+Theorem c10_worker_spins_before_fix : forall h sh n s,
+  w_exited s = false -> w_senders s = 0%nat -> w_chan s = [] ->
+  exists s', wrun false h sh s (repeat WDisc n) = Some s' /\
+             w_exited s' = false /\ w_senders s' = 0%nat /\ w_chan s' = [] /\
+             w_trace s' = w_trace s ++ repeat TFlushTimed n.
+Proof. exact worker_v0_spins. Qed.
+Print Assumptions c10_worker_spins_before_fix.
